@@ -401,6 +401,14 @@ class Gen:
             view = rng.choice([m.T, np.asfortranarray(m.T), np.array([[0] * 4] * 3, F32)[:, ::2] + m.T])   # each [3,2]
             c2 = op.const(view) if rng.random() < 0.5 else initializer(view)
             return op.reduce_sum(c2, op.const(np.array([0], np.int64)), keepdims=0)
+        if k < 0.545:
+            # a LARGE constant / initializer (several KiB) whose array has the non-native byte order or is a strided view
+            self.count("Constant(large, non-native byte order / strided)")
+            n = rng.choice([520, 1100, 2050])
+            base = np.array([[(i * 7 + j * 3 + rng.randint(0, 3)) % 10 for j in range(2)] for i in range(n)], F32)   # [n,2]
+            view = rng.choice([base.astype(">f4"), base.astype(">f4")[::1], np.asfortranarray(base), np.repeat(base, 2, axis=0)[::2]])
+            c2 = op.const(view) if rng.random() < 0.5 else initializer(view)
+            return op.reduce_sum(c2, op.const(np.array([0], np.int64)), keepdims=0)
         if k < 0.58 and "multi" in self.allow:
             self.count("Split")
             r = op.split(a, op.const(np.array([1, 1], np.int64)), outputs_count=2)
@@ -493,6 +501,12 @@ class NoEval(Exception):
     pass
 
 
+def _native(a):
+    """the numbers of an array, whatever its memory layout (byte order, strides)"""
+    a = np.asarray(a)
+    return a.astype(a.dtype.newbyteorder("="), order="C") if a.dtype.kind in "biufc" else a
+
+
 def np_eval(var: Var, env: dict):
     """Evaluate ``var`` directly on the object graph; env: id(argument Var) -> ndarray. Memoised per (env id, var id)."""
     memo = env.setdefault("__memo__", {})
@@ -506,7 +520,7 @@ def np_eval(var: Var, env: dict):
             raise NoEval("unbound argument")
         return env[id(var)]
     if isinstance(opn, _Initializer):
-        return opn.attrs.value.value
+        return _native(opn.attrs.value.value)
     ins = [None if v is None else np_eval(v, env) for v in opn.inputs]
     idx = [i for i, x in enumerate(opn.outputs.get_vars().values()) if x is var][0]
 
@@ -545,7 +559,7 @@ def np_eval(var: Var, env: dict):
         if len(ins) > 1 and ins[1] is not None: x = np.maximum(x, ins[1])
         if len(ins) > 2 and ins[2] is not None: x = np.minimum(x, ins[2])
         out = [x]
-    elif k == "Constant": out = [A.value.value]
+    elif k == "Constant": out = [_native(A.value.value)]
     elif k in ("ReduceSum", "ReduceMin", "ReduceMax", "ReduceMean", "ReduceProd"):
         f = {"ReduceSum": np.sum, "ReduceMin": np.min, "ReduceMax": np.max, "ReduceMean": np.mean, "ReduceProd": np.prod}[k]
         axes = None
